@@ -1,6 +1,6 @@
 """PYD operations on the real code: a pydantic model built from the line, then constructions / assignments.
 
- PYD \t config(va=1,...) \t F|name|base|spec ... \t N|order|v;v;v \t S|field|value
+ PYD \t config(va=1,ctx=1,al=1: identical annotation specs share one annotation object) \t F|name|base|spec ... \t N|order|v;v;v \t S|field|value
    base: nd | nd=0:float32+0:int8 (np.ndarray[Any, np.dtype[...]]) | npt=0:float32 (npt.NDArray[...]) | torch | jax | int
    spec: cls,opt,shape | -            (opt 1 = `| None`)
    N: construct with keywords in the order given by the permutation `2.0.1`
@@ -57,6 +57,7 @@ def op_pyd(config: str, *steps: str) -> str:
     inst = None
     cls = None
     cfg = dict(kv.split("=") for kv in config.split(",") if "=" in kv)
+    shared: dict = {}
 
     def define():
         nonlocal cls
@@ -76,9 +77,13 @@ def op_pyd(config: str, *steps: str) -> str:
                     fields.append((name, bsrc))
                 else:
                     c, opt, shape = spec.split(",", 2)
-                    ann = impl.class_by_name(c)(impl.opt_shape(shape))
-                    nm = f"A{len(fields)}"
-                    ns[nm] = ann
+                    if cfg.get("al") == "1" and (c, shape) in shared:
+                        nm = shared[(c, shape)]   # a type alias: one annotation object behind several fields
+                    else:
+                        ann = impl.class_by_name(c)(impl.opt_shape(shape))
+                        nm = f"A{len(fields)}"
+                        ns[nm] = ann
+                        shared[(c, shape)] = nm
                     h = f"Annotated[{bsrc}, {nm}]"
                     if opt == "1":
                         h += " | None"
